@@ -83,3 +83,47 @@ Example C05_write_example :
   let curr : env := fun i => match i with O => -128 | _ => 2 end in
   wf_lhs lhs = true /\ lin lhs = true /\ tb_set curr lhs 15 curr 0%nat = -116 /\ assign_rtl curr lhs 15 curr 0%nat = -116.
 Proof. vm_compute. repeat split. Qed.
+
+(* ---------------- the translated source ---------------- *)
+(* amaranth/sim/_pyeval.py as regenerated from the current source text on every run (translator/unit_pyeval.py ->
+   coq/Gen/PyEvalGen.v; proofs in Proofs/GenEqPyEval.v) is the model the theorems above are about: for EVERY
+   environment and EVERY expression / target (no well-formedness hypothesis). *)
+From V.Proofs Require Import GenEqPyEval.
+From V.Gen Require PyEvalGen.
+
+(* _eval_matches *)
+Theorem C05_translated_eval_matches t ps : PyEvalGen.eval_matches t ps = tb_case_match t ps.
+Proof. exact (gen_eval_matches_eq t ps). Qed.
+Print Assumptions C05_translated_eval_matches.
+
+(* eval_value *)
+Theorem C05_translated_eval_value en e : PyEvalGen.eval_value en e = eval_tb en e.
+Proof. exact (gen_eval_value_eq en e). Qed.
+Print Assumptions C05_translated_eval_value.
+
+(* _eval_assign_inner *)
+Theorem C05_translated_eval_assign_inner curr lhs start rhs len nx :
+  PyEvalGen.eval_assign_inner curr lhs start rhs len nx = assign_tb curr lhs start rhs len nx.
+Proof. exact (gen_eval_assign_inner_eq curr lhs start rhs len nx). Qed.
+Print Assumptions C05_translated_eval_assign_inner.
+
+(* eval_assign *)
+Theorem C05_translated_eval_assign curr lhs v nx : PyEvalGen.eval_assign curr lhs v nx = tb_set curr lhs v nx.
+Proof. exact (gen_eval_assign_eq curr lhs v nx). Qed.
+Print Assumptions C05_translated_eval_assign.
+
+(* hence the read theorem holds of the translated evaluator itself *)
+Theorem C05_translated_eval_value_denote en e : wf_expr e = true -> env_ok en e ->
+  PyEvalGen.eval_value en e = denote en e.
+Proof. intros Hw He. exact (eq_trans (gen_eval_value_eq en e) (eval_tb_denote en e Hw He)). Qed.
+Print Assumptions C05_translated_eval_value_denote.
+
+(* non-vacuity: the translated functions compute (same instances as C05_example / C05_write_example) *)
+Example C05_translated_example :
+  let e := ESwitch (ESig 1 (Sh 0 false))
+             [(Some [[]], EPart (ESig 0 (Sh 4 true)) (EConst 6 (Sh 3 false)) 3 1); (None, EConst 1 (Sh 1 false))] in
+  let en : env := fun i => match i with O => -3 | _ => 0 end in
+  let lhs := EPart (ESlice (ESig 0 (Sh 8 true)) 0 4) (ESig 1 (Sh 3 false)) 4 1 in
+  let curr : env := fun i => match i with O => -128 | _ => 2 end in
+  PyEvalGen.eval_value en e = 7 /\ PyEvalGen.eval_assign curr lhs 15 curr 0%nat = -116.
+Proof. vm_compute. split; reflexivity. Qed.
